@@ -8,7 +8,7 @@
 (* (spec -> implementation direction): see Export.                                         *)
 EXTENDS RuntimeCycle, Json
 
-CONSTANTS MaxSteps, MaxCycles, ExportScripts, EnableFaults, SrcVals, Dts
+CONSTANTS MaxSteps, MaxCycles, ExportScripts, EnableFaults, EnableRestart, SrcVals, Dts
 
 VARIABLES hist,      \* script so far (observation only; hidden from the fingerprint by View)
           prev,      \* state before the last step (for action-style invariants)
@@ -21,6 +21,7 @@ A(area, size, byte, bit) == [area |-> area, size |-> size, byte |-> byte, bit |-
 B(var, area, size, byte, bit, ty) == [var |-> var, area |-> area, size |-> size, byte |-> byte, bit |-> bit, ty |-> ty, owner |-> -1]
 T(name, interval, single, prio) == [name |-> name, interval |-> interval, single |-> single, prio |-> prio]
 P(name, task, copies) == [name |-> name, task |-> task, copies |-> copies]
+Ct(name, owner, scope, qual) == [name |-> name, owner |-> owner, scope |-> scope, qual |-> qual, shape |-> "INT"]
 Cp(from, to) == [from |-> from, to |-> to, via |-> "stmt"]
 
 Drivers2 == << [off |-> 0, len |-> 1], [off |-> 1, len |-> 1] >>
@@ -35,7 +36,9 @@ Cfg1(pol, wd) ==
                    B("mx", "M", "X", 1, 0, "BOOL") >>,
    drivers |-> Drivers2, policy |-> pol, wd |-> wd,
    safe |-> << [addr |-> A("Q", "X", 1, 0), val |-> <<1>>], [addr |-> A("Q", "X", 0, 6), val |-> <<1>>] >>,
-   singles |-> << "s1" >>, imgLen |-> 2]
+   singles |-> << "s1" >>, imgLen |-> 2, sinit |-> [x \in {"s1"} |-> FALSE], access |-> <<>>,
+   counters |-> << Ct("cnt0", 1, "program", "none"), Ct("cnt1", 2, "program", "none"), Ct("cnt2", 3, "program", "none"), Ct("cnt3", 4, "program", "none"),
+                   Ct("keep", 1, "program", "retain"), Ct("gk", 3, "global", "persistent"), Ct("gn", 3, "global", "nonretain") >>]
 \* a task with both SINGLE and INTERVAL, a shared SINGLE variable, a word binding
 Cfg2(pol, wd) ==
   [tasks |-> << T("T0", 2, "s1", 0), T("T1", 0, "s1", 0) >>,
@@ -43,13 +46,16 @@ Cfg2(pol, wd) ==
    bindings |-> << B("iw", "I", "W", 0, 0, "WORD"), B("qw", "Q", "W", 0, 0, "WORD") >>,
    drivers |-> Drivers2, policy |-> pol, wd |-> wd,
    safe |-> << [addr |-> A("Q", "B", 1, 0), val |-> <<170>>] >>,
-   singles |-> << "s1" >>, imgLen |-> 2]
+   singles |-> << "s1" >>, imgLen |-> 2, sinit |-> [x \in {"s1"} |-> TRUE], access |-> <<>>,
+   counters |-> << Ct("cnt0", 1, "program", "none"), Ct("cnt1", 2, "program", "none"), Ct("cnt2", 3, "program", "none"),
+                   Ct("keep", 2, "program", "retain"), Ct("gk", 1, "global", "retain") >>]
 Vars0(c) == [v \in {c.bindings[k].var : k \in DOMAIN c.bindings} |->
                LET b == CHOOSE b \in {c.bindings[k] : k \in DOMAIN c.bindings} : b.var = v
                IN [i \in 1..SizeBytes(b.size) |-> 0]]
-Configs == {Cfg1("safe_halt", "halt"), Cfg1("halt", "restart"), Cfg2("safe_halt", "safe_halt"), Cfg2("restart", "halt")}
+WithVars0(c) == [k \in DOMAIN c \cup {"vars0"} |-> IF k = "vars0" THEN Vars0(c) ELSE c[k]]
+Configs == {WithVars0(c) : c \in {Cfg1("safe_halt", "halt"), Cfg1("halt", "restart"), Cfg2("safe_halt", "safe_halt"), Cfg2("restart", "halt")}}
 
-Init == /\ cfg \in Configs /\ s = Fresh(cfg, Vars0(cfg)) /\ prev = s /\ last = "Init"
+Init == /\ cfg \in Configs /\ s = Fresh(cfg, cfg.vars0) /\ prev = s /\ last = "Init"
         /\ hist = <<>> /\ nsteps = 0 /\ ncycles = 0
 
 Step(name, x, ev) == /\ nsteps < MaxSteps /\ s' = x /\ prev' = s /\ last' = name /\ hist' = Append(hist, ev)
@@ -70,7 +76,11 @@ DoWatchdog == EnableFaults /\ ~s.faulted /\ Step("Watchdog", WatchdogOf(s), [a |
 DoSimFault == EnableFaults /\ ~s.faulted /\ Step("SimFault", SimFaultOf(s), [a |-> "SimFault"]) /\ UNCHANGED ncycles
 DoCycle == ~s.faulted /\ ncycles < MaxCycles /\ Step("Cycle", CycleOf(s, EvReset), [a |-> "Cycle"]) /\ ncycles' = ncycles + 1
 DoRefusedCycle == s.faulted /\ ncycles < MaxCycles /\ Step("Cycle", CycleOf(s, EvReset), [a |-> "Cycle"]) /\ ncycles' = ncycles + 1
-Next == DoAdvance \/ DoSetSingle \/ DoSetSrc \/ DoInject \/ DoFailDriver \/ DoWatchdog \/ DoSimFault \/ DoCycle \/ DoRefusedCycle
+DoRestart == \E mode \in {"warm", "cold"} : EnableRestart /\ last \notin {"Restart", "PowerCycle", "Init"}
+        /\ Step("Restart", RestartOf(s, mode), [a |-> "Restart", mode |-> mode]) /\ UNCHANGED ncycles
+DoPowerCycle == EnableRestart /\ last \notin {"Restart", "PowerCycle", "Init"}
+        /\ Step("PowerCycle", PowerCycleOf(s), [a |-> "PowerCycle"]) /\ UNCHANGED ncycles
+Next == DoRestart \/ DoPowerCycle \/ DoAdvance \/ DoSetSingle \/ DoSetSrc \/ DoInject \/ DoFailDriver \/ DoWatchdog \/ DoSimFault \/ DoCycle \/ DoRefusedCycle
 Spec == Init /\ [][Next]_mvars
 
 \* ------------------------------------------------------------------ C06
@@ -129,7 +139,7 @@ FaultLatchMonotone == prev.faulted => s.faulted
 \* a refused cycle executes nothing and changes nothing
 RefusedCyclesAreInert == AfterCycle /\ prev.faulted =>
     /\ s.exec = <<>> /\ s.drvLog = <<>>
-    /\ s.vars = prev.vars /\ s.img = prev.img /\ s.cnt = prev.cnt /\ s.overruns = prev.overruns /\ s.lastAct = prev.lastAct
+    /\ s.vars = prev.vars /\ s.img = prev.img /\ s.ctr = prev.ctr /\ s.overruns = prev.overruns /\ s.lastAct = prev.lastAct
 SafeDecision == (last = "Watchdog" /\ cfg.wd \in {"halt", "safe_halt"}) \/ (last \in {"Cycle", "SimFault"} /\ cfg.policy = "safe_halt")
 NewFault == ~prev.faulted /\ s.faulted
 SafeHolds(q) == \A m \in DOMAIN cfg.safe : Decode(q, cfg.safe[m].addr) = cfg.safe[m].val
@@ -146,8 +156,28 @@ NoProgramOutputsAfterFault == AfterCycle /\ NewFault /\ s.fault # "pending:Drive
 FaultIsLatched == (last \in {"Watchdog", "SimFault"} => s.faulted)
                   /\ (AfterCycle /\ ~prev.faulted /\ (prev.drvFail.d # 0 \/ (prev.inj.prog # "" /\ \E i \in DOMAIN s.exec : s.exec[i] = prev.inj.prog)) => s.faulted)
 
+\* ------------------------------------------------------------------ C09
+RetainedC(c) == c.qual \in {"retain", "persistent"}
+Ctrs == {cfg.counters[k] : k \in DOMAIN cfg.counters}
+LastMode == hist[Len(hist)].mode
+\* warm restart / power cycle: exactly the RETAIN and PERSISTENT variables keep their value
+WarmKeepsExactlyRetained == (last = "PowerCycle" \/ (last = "Restart" /\ LastMode = "warm")) =>
+    \A c \in Ctrs : s.ctr[c.name] = IF RetainedC(c) THEN prev.ctr[c.name] ELSE 0
+\* cold restart: observationally a newly built runtime (raw images excepted until the next cycle)
+ColdEqualsFresh == (last = "Restart" /\ LastMode = "cold") =>
+    LET f == Fresh(cfg, cfg.vars0) IN [s EXCEPT !.img = f.img, !.src = f.src, !.drvFail = f.drvFail] = f
+\* every restart clears the latch, the clock and the task state; bound variables restart at init
+RestartResets == last \in {"Restart", "PowerCycle"} =>
+    /\ ~s.faulted /\ s.now = 0 /\ s.vars = cfg.vars0
+    /\ \A t \in TIdx : s.overruns[t] = 0 /\ s.lastAct[t] = 0
+\* a power cycle preserves the same set of variables as a warm restart
+PowerCycleSetEqualsWarmSet == last = "PowerCycle" => s.ctr = RestartOf(prev, "warm").ctr
+\* a cycle is never refused right after a restart, and bindings keep working: a healthy
+\* cycle after a restart publishes / latches exactly like any other (PublishedIsEncodeOfFinal etc.)
+RestartClearsFault == (AfterCycle /\ Len(hist) > 1 /\ hist[Len(hist) - 1].a \in {"Restart", "PowerCycle"}) => prev.faulted = FALSE
+
 \* ------------------------------------------------------------------ export (spec -> impl)
 \* every maximal behaviour of the bounded model becomes one script for tpv cycle-run
 Export == (ExportScripts /\ (nsteps = MaxSteps \/ (ncycles = MaxCycles /\ last = "Cycle"))) =>
-             PrintT(<<"SCRIPT", ToJson([cfg |-> cfg, vars0 |-> Vars0(cfg), steps |-> hist, dbg |-> TRUE])>>)
+             PrintT(<<"SCRIPT", ToJson([cfg |-> cfg, vars0 |-> cfg.vars0, steps |-> hist, dbg |-> TRUE])>>)
 =================================================================================
